@@ -405,9 +405,13 @@ func walk(m map[string]interface{}, ety string, path string) *finding {
 		if ts, _ := cur["type"].(string); ts != "array" {
 			return nil
 		}
-		im := asMap(cur["items"])
+		raw, present := cur["items"]
+		if !present || raw == nil {
+			return &finding{"missing-items", fmt.Sprintf("%s: array schema for %q without items at dimension %d", path, ety, d)}
+		}
+		im := asMap(raw)
 		if im == nil {
-			return &finding{"missing-items", fmt.Sprintf("%s: array schema for %q without an items schema at dimension %d", path, ety, d)}
+			return nil // items present in another form (boolean schema, list): not analysed
 		}
 		cur = im
 		path += ".items"
